@@ -47,11 +47,25 @@ func (s *Session) summarize(key string) *Summary {
 			normal = append(normal, e)
 		}
 	}
-	if len(normal) != 1 || len(normal[0].rets) != 1 || normal[0].rets[0].Term == nil {
-		sm.Err = "the function is not a single-exit expression function"
+	if len(normal) == 0 {
+		sm.Err = "the function has no normal exit"
 		return sm
 	}
-	sm.Result = normal[0].rets[0].Term
+	// several exits: the result is the ite over the branch conditions of each exit
+	var res *Term
+	for i := len(normal) - 1; i >= 0; i-- {
+		e := normal[i]
+		if len(e.rets) != 1 || e.rets[0].Term == nil {
+			sm.Err = "the function does not return a single scalar"
+			return sm
+		}
+		if res == nil {
+			res = e.rets[0].Term
+		} else {
+			res = Ite(And(e.st.branch...), e.rets[0].Term, res)
+		}
+	}
+	sm.Result = res
 	sm.Defs = u.defs
 	sm.Rnd = u.rndArgs
 	sm.Pre = u.old.assume
